@@ -295,6 +295,62 @@ pub fn special_bytes(rng: &mut Prng, n: usize) -> Vec<u8> {
     }
 }
 
+/// Blocks of one batch that are related to each other (counter-mode style, one byte apart, shared halves):
+/// lane mix-ups and anything keyed on part of a block hide from independent random blocks.
+pub fn related_blocks(rng: &mut Prng, n: usize, bs: usize) -> Vec<u8> {
+    if n == 0 {
+        return Vec::new();
+    }
+    let base = if rng.chance(1, 4) { special_bytes(rng, bs) } else { rng.bytes(bs) };
+    let mode = rng.below(6);
+    let mut out = Vec::with_capacity(n * bs);
+    for i in 0..n {
+        let mut b = base.clone();
+        match mode {
+            0 => {
+                // big-endian counter in the last 4 bytes
+                let c = (i as u32).to_be_bytes();
+                let k = bs.min(4);
+                b[bs - k..].copy_from_slice(&c[4 - k..]);
+            }
+            1 => {
+                // little-endian counter in the first bytes
+                b[0] = b[0].wrapping_add(i as u8);
+            }
+            2 => {
+                // one byte apart at a random position
+                if i > 0 {
+                    let p = rng.below(bs as u64) as usize;
+                    b[p] ^= 1 + rng.below(255) as u8;
+                }
+            }
+            3 => {
+                // shares a random half of the byte positions with the base, the rest is fresh
+                if i > 0 {
+                    let mask = rng.next();
+                    for (p, x) in b.iter_mut().enumerate() {
+                        if (mask >> (p % 64)) & 1 == 1 {
+                            *x = rng.next() as u8;
+                        }
+                    }
+                }
+            }
+            4 => {
+                // rotated copies of the base
+                b.rotate_left(i % bs);
+            }
+            _ => {
+                // identical blocks except one
+                if i == n / 2 {
+                    b = rng.bytes(bs);
+                }
+            }
+        }
+        out.extend_from_slice(&b);
+    }
+    out
+}
+
 pub struct Gen {
     pub next_id: u32,
     /// (task, id)
@@ -552,7 +608,11 @@ impl Gen {
             let b = a + len + gap;
             if rng.chance(1, 2) { (a, b) } else { (b, a) }
         };
-        let data = if rng.chance(1, 7) { special_bytes(rng, len) } else { rng.bytes(len) };
+        let data = match rng.below(14) {
+            0 | 1 => special_bytes(rng, len),
+            2..=4 if n > 1 => related_blocks(rng, n, bs),
+            _ => rng.bytes(len),
+        };
         self.call_steps.push(w.step as u32);
         Op::Call { id, task, dir, shape, n: n as u32, in_off: in_off as u32, out_off: out_off as u32, data }
     }
